@@ -55,6 +55,8 @@ def _pick_n(rnd, tier):
 
 
 def _reports_converged(mf, solver, A, r, cfg, eps):
+    if not hasattr(mf, "_matrix_inverse_root_newton" if solver == "newton" else "_matrix_inverse_root_higher_order"):
+        return False  # the routine that exposes the flag moved: only the flag-independent region is judged
     try:
         if solver == "newton":
             out = mf._matrix_inverse_root_newton(A, root=r.numerator, epsilon=eps, max_iterations=cfg.max_iterations, tolerance=cfg.tolerance)
@@ -225,7 +227,9 @@ def run_case(case):
             if bound <= 0.05 and abs(float(X.flatten()[0]) - float(Xg[0, 0])) > 2 * bound * abs(float(Xg[0, 0])):
                 raise Violation("1x1 fast path differs from the general path on the same eigenvalue", fast=float(X.flatten()[0]), general=float(Xg[0, 0]), **desc)
         # ---- iterative solvers: flag semantics and guard, read from the routines' own result tuples
-        if solver == "newton" and n >= 2:
+        if solver == "newton" and n >= 2 and not hasattr(mf, "_matrix_inverse_root_newton"):
+            counters["flag_routine_missing"] = counters.get("flag_routine_missing", 0) + 1
+        elif solver == "newton" and n >= 2:
             Xn, M, flag, it, e = mf._matrix_inverse_root_newton(A, root=r.numerator, epsilon=eps, max_iterations=cfg.max_iterations, tolerance=cfg.tolerance)
             ident = torch.eye(n, dtype=dtype)
             e_indep = float((M - ident).abs().max())
@@ -239,7 +243,9 @@ def run_case(case):
                     raise Violation("Newton reports non-convergence although the tolerance is met", **desc)
             if it > cfg.max_iterations:
                 raise Violation(f"Newton ran {it} > max_iterations {cfg.max_iterations}", **desc)
-        if solver == "ho" and n >= 2:
+        if solver == "ho" and n >= 2 and not hasattr(mf, "_matrix_inverse_root_higher_order"):
+            counters["flag_routine_missing"] = counters.get("flag_routine_missing", 0) + 1
+        elif solver == "ho" and n >= 2:
             kw = dict(rel_epsilon=cfg.rel_epsilon, abs_epsilon=eps, max_iterations=cfg.max_iterations, tolerance=cfg.tolerance, order=cfg.order)
             try:
                 Xh, M, flag, it, true_err = mf._matrix_inverse_root_higher_order(A, root=r, **kw)
